@@ -92,7 +92,7 @@ class Book:
 
 
 HANDLER_KINDS = ["err500", "panic", "drop", "okclose", "abort", "reset"]
-IDLE_KINDS = ["close", "malformed", "aborthead", "abortbody"]
+IDLE_KINDS = ["close", "malformed", "aborthead", "abortbody", "optstar"]
 
 
 def valid(case):
